@@ -268,7 +268,24 @@ def rkness(ctx, rng, idx):
         solver.step(pre, dtpre)
         del disc.calls[:]
         ctx.ev("rkness-after-previous-step")
-    solver.step(f, dt)
+    # the time step in every form a caller may use for ONE global value: python float, numpy scalar, 0-d array, array of shape (1,) --
+    # and the observed step may be the second or third CONSECUTIVE step on the same field object (what a loop over step() does)
+    dt_arg = dt
+    if np.ndim(dt) == 0:
+        form = int(rng.integers(4))
+        dt_arg = [float(dt), np.float64(dt), np.array(float(dt)), np.array([float(dt)])][form]
+        ctx.describe(dt_given_as=["python float", "numpy scalar", "0-d array", "array of shape (1,)"][form])
+    nprev = int(rng.integers(0, 3)) if not (not real and fdesc.get("rhs_vanishes_at_step_start")) else 0
+    for _ in range(nprev):
+        solver.step(f, dt_arg)
+    if nprev:
+        if not all(np.all(np.isfinite(d)) for d in f.data) or not np.all(np.isfinite(np.asarray(f.time, float))):
+            raise core.Skip("nonfinite after the preceding steps")
+        ctx.true("time-is-a-number", np.ndim(f.time) == 0, "rkness/%s/field-time-not-a-scalar-after-a-step" % iname, {"time": f.time, "dt given as": type(dt_arg).__name__, "shape": np.shape(dt_arg)}, cls=cls)
+        f0 = ffield.fdata(f.model, f.mesh, [np.array(d, copy=True) for d in f.data], t=float(np.asarray(f.time, float).ravel()[0]))
+        del disc.calls[:]
+        ctx.describe(consecutive_steps_before_the_observed_one=nprev)
+    solver.step(f, dt_arg)
     calls = disc.calls
     ctx.true("ncalls", len(calls) == s, "rkness/%s/stage-count" % iname, {"calls": len(calls)}, cls=cls)
     if len(calls) != s or not all(np.all(np.isfinite(x)) for cl in calls for x in cl[2]):
